@@ -18,6 +18,7 @@ import (
 
 	"github.com/go-critic/go-critic/linter"
 
+	"verifharness/internal/absconv"
 	"verifharness/internal/common"
 	"verifharness/internal/fw"
 )
@@ -231,8 +232,23 @@ func Run(tier string, seed int64, outDir string) *common.Meta {
 	walkerFails := make([][]walkerFailure, len(histories))
 	fails := make([][]failure, len(histories))
 	stats := make([][3]int, len(histories))
+	// per-visit outcomes of the modelled visitors (input of the model execution, see model.go)
+	modelled := map[int]string{}
+	{
+		names := map[string]bool{}
+		for _, v := range absconv.Visitors(infos) {
+			names[v.Name] = true
+		}
+		for ci, info := range infos {
+			if names[info.Name] {
+				modelled[ci] = info.Name
+			}
+		}
+	}
+	observed := make([][]map[string]fw.Outcome, len(histories))
 	fw.Parallel(len(histories), func(hi int) {
 		h := histories[hi]
+		observed[hi] = make([]map[string]fw.Outcome, len(h))
 		set, err := fw.NewSet(fset, infos)
 		if err != nil {
 			fails[hi] = append(fails[hi], failure{hi, -1, 0, fw.Outcome{Panic: "NewSet: " + err.Error()}, fw.Outcome{}})
@@ -260,6 +276,12 @@ func Run(tier string, seed int64, outDir string) *common.Meta {
 			for ci, c := range set.Checkers {
 				got := fw.SafeCheck(c, f)
 				stats[hi][0]++
+				if name, ok := modelled[ci]; ok {
+					if observed[hi][at] == nil {
+						observed[hi][at] = map[string]fw.Outcome{}
+					}
+					observed[hi][at][name] = got
+				}
 				// walker protocol state (astwalk flags) must be back to its post-construction value after every file
 				if ws := fw.WalkerState(c); ws != walker0[ci] && !walkerReported[ci] && got.Panic == "" {
 					walkerReported[ci] = true
@@ -379,8 +401,19 @@ func Run(tier string, seed int64, outDir string) *common.Meta {
 		meta.AddSample(map[string]interface{}{"history": descs(h), "checkers": len(infos), "all_visits_equal_fresh": len(fails[i]) == 0})
 	}
 
-	// CLI: permuted and split package arguments
+	// model execution: the Coq models of the modelled visitors over the same histories, converted file by file
+	modelStream(meta, outDir, infos, histories, usedList, fresh, func(hi, at int, name string) (fw.Outcome, bool) {
+		if observed[hi] == nil || observed[hi][at] == nil {
+			return fw.Outcome{}, false
+		}
+		o, ok := observed[hi][at][name]
+		return o, ok
+	})
+
+	// CLI: permuted and split package arguments; twin packages (same file names, same text) alone vs together
+	curTier = tier
 	cliStream(meta, tier, seed, s1)
+	twinStream(meta, tier, seed, outDir, s1, s2)
 
 	// go/analysis front-end: histories of passes (runs last: the analyzer rewrites the registered parameter cells)
 	analyzerStream(meta, tier, seed, fset, s1, infos, fresh)
@@ -529,9 +562,27 @@ func genHistory(rng *rand.Rand, pkgs []*fw.Pkg, n int) []*fw.File {
 
 // ---- CLI stream ----
 
+// cliTimeout is the wall-clock limit of one CLI run. It is generous (a normal run takes a few seconds) and a run that
+// exceeds it is retried once and then only NOTED: termination is C01's subject, and a limit hit because the machine is
+// loaded says nothing about history independence.
+func cliTimeout(tier string) time.Duration {
+	if tier == "thorough" {
+		return 20 * time.Minute
+	}
+	return 8 * time.Minute
+}
+
+var curTier = "quick"
+
 func runCLI(dir string, pkgArgs []string) (lines []string, code int, err error) {
 	args := append([]string{"check", "-enableAll"}, pkgArgs...)
-	out, code, err := common.Run(180*time.Second, dir, common.GoEnv(), filepath.Join(common.BinDir(), "go-critic"), args...)
+	var out string
+	for attempt := 0; attempt < 2; attempt++ {
+		out, code, err = common.Run(cliTimeout(curTier), dir, common.GoEnv(), filepath.Join(common.BinDir(), "go-critic"), args...)
+		if err == nil {
+			break
+		}
+	}
 	if err != nil {
 		return nil, code, err
 	}
@@ -567,8 +618,12 @@ func cliStream(meta *common.Meta, tier string, seed int64, s1 []*fw.Pkg) {
 		}
 		base, code0, err := runCLI(common.RepoDir, args)
 		runs++
-		if err != nil || (code0 != 0 && code0 != 1) {
-			meta.Fail("C03/cli/run", fmt.Sprintf("go-critic check did not finish normally: exit=%d err=%v", code0, err), args)
+		if err != nil {
+			meta.Notes = append(meta.Notes, fmt.Sprintf("CLI stage: go-critic check %v did not finish within the wall-clock limit twice (machine load? not a verdict of this property): %v", args, err))
+			continue
+		}
+		if code0 != 0 && code0 != 1 {
+			meta.Fail("C03/cli/run", fmt.Sprintf("go-critic check did not finish normally: exit=%d", code0), args)
 			continue
 		}
 		sortedBase := append([]string(nil), base...)
@@ -588,16 +643,18 @@ func cliStream(meta *common.Meta, tier string, seed int64, s1 []*fw.Pkg) {
 		// split into groups (separate processes), union of outputs
 		cut1 := 1 + rng.Intn(len(p2)-1)
 		var union []string
+		incomplete := false
 		for _, grp := range [][]string{p2[:cut1], p2[cut1:]} {
 			got, _, err := runCLI(common.RepoDir, grp)
 			runs++
 			if err != nil {
-				meta.Fail("C03/cli/run", "go-critic check did not finish: "+err.Error(), grp)
+				meta.Notes = append(meta.Notes, fmt.Sprintf("CLI stage: go-critic check %v did not finish within the wall-clock limit twice (not a verdict): %v", grp, err))
+				incomplete = true
 			}
 			union = append(union, got...)
 		}
 		sort.Strings(union)
-		if strings.Join(union, "\n") != strings.Join(sortedBase, "\n") {
+		if !incomplete && strings.Join(union, "\n") != strings.Join(sortedBase, "\n") {
 			meta.Fail("C03/cli/argument-grouping", "sorted output changes when the package arguments are split over two runs", map[string]interface{}{"args": args, "groups": [][]string{p2[:cut1], p2[cut1:]}, "diff": diffLines(sortedBase, union)})
 		}
 		if r == 0 {
